@@ -232,13 +232,24 @@ def set_lines(top, enums, groups):
     else:
         members.append((top, False))
     claimed = set()
+    after_catch_all = False
+    order = [(ty, hidden) for (_, ty, hidden) in top.members] if isinstance(top, Group) else []
+    raw_seen_before = {}
+    seen_raw = False
+    for (ty, hidden) in order:
+        if ty == "RawCommand":
+            seen_raw = True
+        else:
+            raw_seen_before[ty] = seen_raw
     for (e, hidden) in members:
+        after_catch_all = raw_seen_before.get(e.ident, False)
         dup = {c.name() for c in e.cmds} & claimed
         claimed |= {c.name() for c in e.cmds}
         for c in e.cmds:
             cl = cmd_lines(c, enums)
-            if c.name() in dup:
-                # an earlier member of the group answers this name: no expectation
+            if c.name() in dup or after_catch_all:
+                # an earlier member of the group (a same-named command, or a RawCommand catch-all)
+                # answers this line: no expectation
                 cl = [(l, False) for (l, _) in cl]
             if hidden is None:
                 pass
@@ -465,6 +476,15 @@ def build_family(seed):
     add(Enum("S23C", [Cmd("GetSecret"), Cmd("Reset")], title="Hidden"))
     add(Enum("S23D", [Cmd("Reboot"), Cmd("Ge")]))
     tops.append(Group("S23", [("A", "S23A", False), ("B", "S23B", False), ("C", "S23C", True), ("D", "S23D", False)]))
+    # catch-all RawCommand member in the MIDDLE of a group (completion and help must still see the later members)
+    add(Enum("S26Late", [Cmd("GetLed", [Field("led", "u8")]), Cmd("GetAdc", [Field("adc", "u8")]), Cmd("Late")], title="Declared after the catch-all"))
+    tops.append(Group("S26", [("Base", "S1", False), ("Other", "RawCommand", False), ("Late", "S26Late", False)]))
+    # a user command that is itself called `help` (an ordinary command when the help facility is compiled out)
+    tops.append(add(Enum("S25", [
+        Cmd("Help", [Field("topic", "str", optional=True)], doc="The application's own help"),
+        Cmd("Helm", doc="Steer"),
+        Cmd("Halt", [Field("now", "bool", kind="flag", short=True, long=True)]),
+    ])))
     # systematic prefix chains and many commands
     tops.append(add(Enum("S21", [Cmd(f"P{i}", name=n, doc=f"chain {n}") for i, n in enumerate(
         ["a", "ab", "abc", "abcd", "abcde", "b-x", "b-y", "b-xy", "c", "led1", "led10", "led2", "zz-top", "zz", "z"])])))
@@ -513,6 +533,94 @@ def build_family(seed):
                 members.append(("Other", "RawCommand", False))
             tops.append(Group(f"R{g}", members))
     return enums, tops
+
+
+MANUAL_SET = r'''
+// ---- a command set whose Autocomplete and Help are written by hand (derive with skip_autocomplete,
+// ---- skip_help): help text that does not end its last line, candidates merged in a loop
+#[derive(Debug, Command)]
+#[command(skip_autocomplete, skip_help)]
+#[allow(dead_code)]
+pub enum Manual<'a> {
+    Led { id: u8 },
+    Adc { ch: u8 },
+    Status,
+    Say { text: &'a str },
+    Stat,
+}
+
+const MANUAL_NAMES: [&str; 5] = ["led", "adc", "status", "say", "stat"];
+
+impl embedded_cli::service::Autocomplete for Manual<'_> {
+    #[cfg(feature = "autocomplete")]
+    fn autocomplete(request: embedded_cli::autocomplete::Request<'_>, autocompletion: &mut embedded_cli::autocomplete::Autocompletion<'_>) {
+        #[allow(irrefutable_let_patterns, unreachable_patterns)]
+        if let embedded_cli::autocomplete::Request::CommandName(name) = request {
+            for n in MANUAL_NAMES {
+                if let Some(rest) = n.strip_prefix(name) {
+                    autocompletion.merge_autocompletion(rest);
+                }
+            }
+        }
+    }
+}
+
+impl embedded_cli::service::Help for Manual<'_> {
+    #[cfg(feature = "help")]
+    fn command_count() -> usize {
+        MANUAL_NAMES.len()
+    }
+
+    #[cfg(feature = "help")]
+    fn list_commands<W: embedded_io::Write<Error = E>, E: embedded_io::Error>(
+        writer: &mut embedded_cli::writer::Writer<'_, W, E>,
+    ) -> Result<(), E> {
+        writer.write_str("commands:")?;
+        for n in MANUAL_NAMES {
+            writer.write_str(" ")?;
+            writer.write_str(n)?;
+        }
+        Ok(())
+    }
+
+    #[cfg(feature = "help")]
+    fn command_help<W: embedded_io::Write<Error = E>, E: embedded_io::Error, F: FnMut(&mut embedded_cli::writer::Writer<'_, W, E>) -> Result<(), E>>(
+        parent: &mut F,
+        command: RawCommand<'_>,
+        writer: &mut embedded_cli::writer::Writer<'_, W, E>,
+    ) -> Result<(), embedded_cli::service::HelpError<E>> {
+        if !MANUAL_NAMES.contains(&command.name()) {
+            return Err(embedded_cli::service::HelpError::UnknownCommand);
+        }
+        writer.write_str("usage: ")?;
+        parent(writer)?;
+        writer.write_str(command.name())?;
+        Ok(())
+    }
+}
+
+pub struct DManual;
+impl SetDef for DManual {
+    type Ty = Manual<'static>;
+    fn parse_dbg<'a>(raw: RawCommand<'a>) -> Result<String, ParseError<'a>> {
+        <Manual<'a> as FromRaw<'a>>::parse(raw).map(|c| format!("{:?}", c))
+    }
+}
+
+fn step_derived_manual(cli: &mut SimCli<'_>, b: u8, app: &mut App) -> Result<(), SimErr> {
+    let mut p = Manual::processor(|h: &mut CliHandle<'_, Sink, SimErr>, cmd: Manual<'_>| app.handle_typed(h, format!("{:?}", cmd)));
+    cli.process_byte::<Manual<'_>, _>(b, &mut p)
+}
+'''
+
+MANUAL_META = r'''    SetMeta {
+        ident: "Manual",
+        names: &["led", "adc", "status", "say", "stat"],
+        grouped: false,
+        lines: &["help", "help led", "help nosuch", "led 7", "led", "led zz", "led 7 --zzz", "adc 3", "status", "stat", "say abc", "say \"two words\"", "status --help", "led -h", "nosuch"],
+        valid_lines: &["led 7", "adc 3", "status", "stat", "say abc"],
+        invalid_lines: &["led", "led zz", "led 7 --zzz"],
+    },'''
 
 
 def main():
@@ -573,6 +681,7 @@ def main():
         out.append("}")
         out.append("")
 
+    out.append(MANUAL_SET)
     out.append("pub static SETS: &[SetMeta] = &[")
     out.append('    SetMeta { ident: "Raw", names: &[], grouped: false, lines: &["raw 1 2", "x", "cmd \\"a b\\" -f --long -- -v", "help", "help x", "x --help", "a -h b"], valid_lines: &[], invalid_lines: &[] },')
     for t in tops:
@@ -595,6 +704,7 @@ def main():
             out.append("            " + rs_str(l) + ",")
         out.append("        ],")
         out.append("    },")
+    out.append(MANUAL_META)
     out.append("];")
     out.append("")
     out.append("pub fn step(set: usize, derived: bool, cli: &mut SimCli<'_>, b: u8, app: &mut App) -> Result<(), SimErr> {")
@@ -604,6 +714,8 @@ def main():
     for i, t in enumerate(tops):
         out.append(f"        ({i + 1}, false) => step_with::<D{t.ident}>(cli, b, app),")
         out.append(f"        ({i + 1}, true) => step_derived_{t.ident}(cli, b, app),")
+    out.append(f"        ({len(tops) + 1}, false) => step_with::<DManual>(cli, b, app),")
+    out.append(f"        ({len(tops) + 1}, true) => step_derived_manual(cli, b, app),")
     out.append('        _ => panic!("harness: no such command set"),')
     out.append("    }")
     out.append("}")
